@@ -36,6 +36,8 @@ BigStruct(n) == St([i \in 1..n |-> Fld("none", BigNames[i], BigNames[i], IF i % 
 
 Types ==
   CASE Fam = "leaf" -> Leaf
+    [] Fam = "rec" -> {[k |-> "rec", d |-> 2], [k |-> "ptr", e |-> [k |-> "rec", d |-> 2]], [k |-> "slice", e |-> [k |-> "rec", d |-> 1]],
+                      [k |-> "map", key |-> "str", e |-> [k |-> "ptr", e |-> [k |-> "rec", d |-> 1]]], St(<<Fld("omit", "A", "A", [k |-> "rec", d |-> 1])>>)}
     [] Fam = "bigst" -> {BigStruct(n) : n \in BigSizes}
     [] Fam = "mapkeys" -> {[k |-> "map", key |-> kk, e |-> t] : kk \in AllKeyKinds, t \in {[k |-> "int"], [k |-> "str"]}}   \* every key parser, always in the quick tier
     [] Fam = "wrap1" -> WrapK(Leaf, AllKeyKinds)        \* every key kind: each has its own key parser
@@ -70,7 +72,9 @@ AtomsR == {Null, [j |-> "t"], N("p7"), N("p300"), N("f1_5"), S("sx"), S("s12"), 
 
 RECURSIVE Match(_)
 Match(t) ==
-  CASE t.k \in NumKinds \cup {"num", "iface"} -> N("p7")
+  CASE t.k = "rec" -> IF t.d = 0 THEN Obj(<<KV("V", N("p7"))>>)
+                      ELSE Obj(<<KV("V", N("p7")), KV("next", Match([k |-> "rec", d |-> t.d - 1])), KV("kids", Arr(<<Match([k |-> "rec", d |-> t.d - 1])>>))>>)
+    [] t.k \in NumKinds \cup {"num", "iface"} -> N("p7")
     [] t.k = "bool" -> [j |-> "t"]
     [] t.k \in {"str", "ut"} -> S("sx")
     [] t.k = "raw" -> Arr(<<N("p7")>>)
